@@ -11,7 +11,9 @@
    and clean, so filepath.Abs is the identity. Oracles (Section variables, shipped by the driver as tables):
      rematch i p  = confs[i].Regexp.FindStringSubmatch(p) != nil
      resolve p    = index of the configuration conf.FindPathConf(confs, p) returns (None = error)
-     loff         = offset of the (fixed) local zone, used by time.Date inside Decode.
+     L            = the local zone as Decode sees it (C26: lzone - the offset time.Date applies to a wall-clock
+                    reading and the offset in force at an instant); a fixed zone is fixed_lz loff, a
+                    zone-database zone is lz_of_zone z (Model/C26_Zone.v).
    Instants are compared in nanoseconds since the Unix epoch. *)
 From Coq Require Import List ZArith Bool.
 Require Import MTX.Lib.Civil MTX.Model.C26_RecPath MTX.Model.C31_DeleteSeg.
@@ -77,7 +79,7 @@ Definition valid_path_name (n : list Z) : bool :=
 (* ------------------------------------------------------------------ one pass *)
 
 Section Cleaner.
-Variable loff : Z.
+Variable L : lzone.
 Variable rematch : nat -> list Z -> bool.
 Variable resolve : list Z -> option nat.
 
@@ -85,7 +87,7 @@ Definition is_file (e : entry) : bool := match snd e with KOther => true | KDir 
 
 (* the body of the three WalkDir callbacks: a non-directory at or below CommonPath(g) whose name Decode accepts *)
 Definition recognises (g : list Z) (e : entry) : option (list Z * Z * Z) :=
-  if is_file e && under (common_path g) (fst e) then decode loff g (fst e) else None.
+  if is_file e && under (common_path g) (fst e) then decode_lz L g (fst e) else None.
 
 Definition seg_format (c : pconf) (pn : list Z) : list Z := path_format (pc_rp c) (pc_ext c) pn.
 
